@@ -277,3 +277,28 @@ Proof.
   rewrite (genuine_keys_length _ _ _ _ _ Hl). split; [exact H5|]. split; [exact H6|].
   intros x Hx. eapply genuine_keys_signed, Hx.
 Qed.
+
+(* ---- CheckSign (older request format) ------------------------------------------------------ *)
+Lemma validate_all_genuine kis : forall sigs msg, validate_all kis sigs msg = true ->
+  forall j k, nth_error kis j = Some k -> exists sg, nth_error sigs j = Some sg /\ genuine k msg sg.
+Proof.
+  induction kis as [|k0 kr IH]; intros sigs msg Hv j k Hj; [destruct j; discriminate|].
+  destruct sigs as [|sg gr]; [discriminate|]. cbn [validate_all] in Hv. apply andb_true_iff in Hv as [H0 Hr].
+  destruct j as [|j]; cbn in Hj.
+  - injection Hj as <-. exists sg. split; [reflexivity|]. destruct k0 as [ki|]; [|discriminate].
+    apply genuineb_spec. eapply sig_valid_genuine, H0.
+  - destruct (IH gr msg Hr j k Hj) as (sg' & H1 & H2). exists sg'. split; assumption.
+Qed.
+
+(* accepted for A only if the service maps the presented keys to A, A is neither black- nor grey-listed, and EVERY
+   presented key - at least one - carries a genuine signature over exactly function name, arguments and keys *)
+Theorem check_sign_sound i a : check_sign i = Ok a ->
+  exists n ktypes, a_acl i = AclOk a false false n ktypes /\ (1 <= cs_signers i)%nat /\
+    forall j k, nth_error (cs_kis i) j = Some k -> exists sg, nth_error (a_sigs i) j = Some sg /\ genuine k (cs_msg i) sg.
+Proof.
+  unfold check_sign. destruct (Nat.eqb_spec (cs_signers i) 0) as [|Hs]; [discriminate|].
+  destruct (validate_all (cs_kis i) (a_sigs i) (cs_msg i)) eqn:Ev; cbn [negb]; [|discriminate].
+  destruct (a_acl i) as [|addr black grey n kt]; [discriminate|].
+  destruct black; [discriminate|]. destruct grey; [discriminate|]. intros [= <-].
+  exists n, kt. split; [reflexivity|]. split; [lia|]. apply validate_all_genuine, Ev.
+Qed.
